@@ -114,7 +114,19 @@ def _reduce_body(body: List[ast.stmt], x: str, kind: str):
                     return None
                 conds.append(sub(inner.test))
                 inner = inner.body[0]
-            e = _append_of(inner, x, kind)
+
+            def elem_of(st: ast.stmt) -> Optional[ast.AST]:
+                """`X.append(A)` -> A;  `if C: X.append(A) else: X.append(B)` -> A if C else B"""
+                a = _append_of(st, x, kind)
+                if a is not None:
+                    return a
+                if isinstance(st, ast.If) and len(st.body) == 1 and len(st.orelse) == 1 \
+                        and x not in _names(st.test):
+                    p, q = elem_of(st.body[0]), elem_of(st.orelse[0])
+                    if p is not None and q is not None:
+                        return ast.copy_location(ast.IfExp(st.test, p, q), st)
+                return None
+            e = elem_of(inner)
             if e is None or x in _names(e):
                 return None
             elt = sub(e)
@@ -158,10 +170,30 @@ class _Norm:
             if init is not None:
                 j = i + 1
                 x, kind = init
-                while j < len(stmts) and not isinstance(stmts[j], ast.For) and \
+                while j < len(stmts) and not isinstance(stmts[j], (ast.For, ast.If)) and \
                         x not in _names(stmts[j]) and \
                         isinstance(stmts[j], (ast.Assign, ast.AnnAssign, ast.Expr)):
                     j += 1
+                if j < len(stmts) and isinstance(stmts[j], ast.If) and \
+                        len(stmts[j].body) == 1 and len(stmts[j].orelse) == 1 and \
+                        isinstance(stmts[j].body[0], ast.For) and \
+                        isinstance(stmts[j].orelse[0], ast.For) and \
+                        x not in _names(stmts[j].test):
+                    # X = []; if C: <loop filling X> else: <loop filling X>
+                    br = stmts[j]
+                    c1 = self.loop(br.body[0], x, kind)
+                    c2 = self.loop(br.orelse[0], x, kind)
+                    if c1 is not None and c2 is not None and \
+                            x not in _names(br.body[0].iter) | _names(br.orelse[0].iter):
+                        comp = ast.copy_location(ast.IfExp(br.test, c1, c2), br)
+                        new = ast.copy_location(
+                            ast.Assign([ast.Name(x, ast.Store())], comp), br)
+                        ast.fix_missing_locations(new)
+                        out.extend(stmts[i + 1:j])
+                        out.append(new)
+                        self.changed = True
+                        i = j + 1
+                        continue
                 if j < len(stmts) and isinstance(stmts[j], ast.For):
                     loop = stmts[j]
                     comp = self.loop(loop, x, kind)
